@@ -56,7 +56,7 @@ Proof.
 Qed.
 
 Definition XP (s0 : db) : panic -> db -> Prop :=
-  fun p s' => allowed p /\ Inv s' /\ ext s0 s'.
+  fun p s' => allowed s0 p /\ Inv s' /\ ext s0 s'.
 
 (* ---------------------------------------------------------------- mark_verified *)
 Lemma mark_verified_ok q m s (X : panic -> db -> Prop) :
@@ -166,7 +166,8 @@ Definition mca_spec (L : lower) (n : nat) : Prop :=
 
 Lemma XP_trans s0 s1 p s' : ext s0 s1 -> XP s1 p s' -> XP s0 p s'.
 Proof.
-  intros He (Ha & HI & He'). split; [exact Ha|]. split; [exact HI|].
+  intros He (Ha & HI & He'). split; [apply (allowed_ext s0 s1); [apply (ext_pcell _ _ He) | exact Ha]|].
+  split; [exact HI|].
   eapply ext_trans; eassumption.
 Qed.
 
@@ -506,10 +507,11 @@ Proof.
   - (* PanicIf *)
     apply wp_bind, wp_get.
     cbn [trace run] in Htr, HE.
-    destruct (d_pcell s pc =? 0).
+    destruct (d_pcell s pc =? 0) eqn:Hpc.
     + apply (IH pre fr s Hc); try assumption.
       intros d Hd. apply Hcalls. eapply calls_in_panicif; exact Hd.
-    + apply wp_fail. split; [right; reflexivity|]. split; [exact HI | apply ext_refl].
+    + apply wp_fail. split; [right; split; [reflexivity | exists pc; apply N.eqb_neq; exact Hpc]|].
+      split; [exact HI | apply ext_refl].
 Qed.
 
 (* ---------------------------------------------------------------- execute *)
